@@ -160,7 +160,17 @@ def mirror(ctx, s):
         pk = sorted((repr(k), repr(sorted(map(repr, c)))) for k, c, _, _ in ps)
         dk = sorted((repr(k), repr(sorted(map(repr, c)))) for k, c, _, _ in ds)
         b, info = ds[0][2], ds[0][3]
-        if [k for k, _ in pk] != [k for k, _ in dk]:
+        opaque = lambda k: contains_value(k, lambda x: (x[0] == "call" and (x[1].startswith("core::iter::adapters::") or
+                                                                            (x[1].startswith("core::iter::traits::iterator::Iterator::") and
+                                                                             x[1].rsplit("::", 1)[-1] not in ("next",)))) or
+                                           (x[0] == "agg" and isinstance(x[1], str) and x[1].startswith("closure:")))
+        some_opaque = any(opaque(k) for k, _, _, _ in ps + ds) or any(opaque(tuple(c)) for _, c, _, _ in ps + ds)
+        same_builders = sorted(key_builder(k) for k, _, _, _ in ps) == sorted(key_builder(k) for k, _, _, _ in ds)
+        if pk != dk and some_opaque and same_builders:
+            s.add("S-MIRROR", d1, "table", t, info["sp"], UNDECIDED,
+                  "same key builder (%s) in index() and deindex, but one side draws its arguments from an iterator adaptor with a "
+                  "closure: argument and condition agreement is not decided" % key_builder(ps[0][0]), b)
+        elif [k for k, _ in pk] != [k for k, _ in dk]:
             s.add("S-MIRROR", d1, "key", t, info["sp"], VIOLATION,
                   "the key deleted from %s is not built like the key inserted (builder %s vs %s, or different arguments): "
                   "removal leaves a dangling entry" % (t, key_builder(ds[0][0]), key_builder(ps[0][0])), b)
@@ -217,7 +227,7 @@ def unconditional_entries(ctx, s, puts, dels):
             if table not in ("i_index", "ci_index", "ac_index", "akc_index"):
                 continue
             good = s.ok_edges_of_call(fn, b)
-            reach = an.cfg.reach_from([an.cfg.entry], avoid=good)
+            reach = s.reach(fn, [an.cfg.entry], avoid=good)
             bad = [n for n in oks if n in reach]
             s.add("S-MUSTPASS", fn, "every-event", table, info["sp"], PROVED if not bad else VIOLATION,
                   "every success path passes this %s" % info["callee"].rsplit("::", 1)[-1] if not bad else
@@ -231,7 +241,7 @@ def unconditional_entries(ctx, s, puts, dels):
         good = []
         for b, info in cs:
             good += s.ok_edges_of_call(rb, b)
-        reach = an.cfg.reach_from([an.cfg.entry], avoid=good)
+        reach = s.reach(rb, [an.cfg.entry], avoid=good)
         bad = [n for n in oks if n in reach] or not cs
         s.add("S-MUSTPASS", rb, "remove-both-halves", callee.split("::")[-1], rb.sp, PROVED if not bad else VIOLATION,
               "remove_by_offset always calls %s" % callee.split("::")[-1] if not bad else
@@ -296,23 +306,51 @@ def scan_builders(ctx, s, puts):
         tbl = ".".join(recv) if recv else "?"
         builders = [c for c in an.calls() if (c[1]["callee"] or "").rsplit("::", 1)[-1].startswith("key_")]
         names = sorted({c[1]["callee"].rsplit("::", 1)[-1] for c in builders})
-        ok = tbl == table and names == [want] and len(builders) == 2
-        # which time bound goes where: the start key (lower bound, Included) takes `until`
         params = {fn.local_name(i): ("param", i) for i in range(1, fn.argc + 1)}
-        order_ok = False
+        # the two (time, id) pairs the bounds are built from, in source order, and the builder used
+        pairs = None
         if len(builders) == 2:
-            # order in the source: first builder call is the start prefix
             (b1, i1), (b2, i2) = sorted(builders, key=lambda x: x[1]["sp"]["l"])
-            has = lambda info_, pn: any(a == params.get(pn) for a in info_["args"])
-            order_ok = has(i1, "until") and has(i2, "since") and not has(i1, "since") and not has(i2, "until")
-            # id bounds: start all-zero, end all-0xff
-            z1 = contains_value(tuple(i1["args"]), lambda x: x[0] == "repeat" and x[1] == ("const", 0, "u8"))
-            z2 = contains_value(tuple(i2["args"]), lambda x: x[0] == "repeat" and x[1] == ("const", 255, "u8"))
-            order_ok = order_ok and z1 and z2
+            pairs = [tuple(i1["args"]), tuple(i2["args"])]
+        elif not builders:
+            # the builder is called in a closure that fn calls twice with (time, id)
+            for cf in ctx.F.closures_of(fn.path):
+                ca = ctx.E.an(cf)
+                kb = [c for c in ca.calls() if (c[1]["callee"] or "").rsplit("::", 1)[-1].startswith("key_")]
+                cc = sorted([c for c in an.calls() if (c[1]["callee"] or "") == cf.path], key=lambda x: x[0])
+                if len(kb) == 1 and len(cc) == 2 and cf.argc == 3:
+                    kargs = kb[0][1]["args"]
+                    if any(a == ("param", 2) for a in kargs) and any(a == ("param", 3) for a in kargs):
+                        names = [kb[0][1]["callee"].rsplit("::", 1)[-1]]
+                        pairs = []
+                        for _, ci in cc:
+                            tup = ci["args"][1]
+                            pairs.append(tuple(tup[2]) if tup[0] == "agg" and tup[1] == "tuple" else (tup,))
+        ok = tbl == table and names == [want] and pairs is not None
+        order_ok = None
+        if pairs is not None:
+            has = lambda args_, pn: any(a == params.get(pn) for a in args_)
+            order_ok = has(pairs[0], "until") and has(pairs[1], "since") and not has(pairs[0], "since") and not has(pairs[1], "until")
+            # id bounds: start all-zero, end all-0xff (a named constant whose value was not extracted: not decided)
+            def idb(args_, byte):
+                if contains_value(tuple(args_), lambda x: x[0] == "repeat" and x[1] == ("const", byte, "u8")):
+                    return True
+                if contains_value(tuple(args_), lambda x: x[0] == "repeat"):
+                    return False
+                return None
+            z1, z2 = idb(pairs[0], 0), idb(pairs[1], 255)
+            if order_ok and (z1 is False or z2 is False):
+                order_ok = False
+            elif order_ok and (z1 is None or z2 is None):
+                order_ok = None
         n += 1
         if ok and order_ok:
             s.add("S-MIRROR", fn, "scan-bounds", itname, info["sp"], PROVED,
                   "both bounds built by %s on table %s; start=(until, 00..), end=(since, ff..)" % (want, table), b)
+        elif ok and order_ok is None:
+            s.add("S-MIRROR", fn, "scan-bounds", itname, info["sp"], UNDECIDED,
+                  "both bounds built by %s on table %s with until/since in place; the id bounds are named constants whose value "
+                  "was not extracted: not decided" % (want, table), b)
         else:
             s.add("S-MIRROR", fn, "scan-bounds", itname, info["sp"], VIOLATION,
                   "the scan over %s does not use the table's own key builder %s for both bounds with (until,00..)/(since,ff..): "
@@ -444,7 +482,7 @@ def rebuild_table_cover(ctx, s):
     allok = len(commits) >= len(wts) and len(wts) >= 4
     for cb, cinfo in commits:
         good = s.ok_edges_of_call(rb, cb)
-        reach = an.cfg.reach_from([an.cfg.entry], avoid=good)
+        reach = s.reach(rb, [an.cfg.entry], avoid=good)
         if any(n in reach for n in oks):
             allok = False
     s.add("S-MUSTPASS", rb, "copy-loops-committed", "rebuild", rb.sp, PROVED if allok else VIOLATION,
